@@ -55,6 +55,21 @@ def check(ctx):
                "registration writes routes[application_id][command_code] = handler",
                f"registration writes (entries, buckets replaced) = {rows}; expected routes[{params[0] if params else '?'}]"
                f"[{params[1] if len(params) > 1 else '?'}] = handler on every path without replacing an existing bucket", key="writer")
+    # the table starts empty and no two applications can share one bucket object
+    bini = ctx.need(br.methods.get("__init__"), "Bromelia.__init__")
+    inits = [x for x in walk_no_nested(bini) if isinstance(x, ast.Assign) and any(ast.unparse(t) == "self.routes" for t in x.targets)]
+    ok_init = len(inits) == 1 and ast.unparse(inits[0].value) in ("{}", "dict()")
+    ctx.decide(ok_init, "R-ALIAS/route-buckets", f"{br.qual}.__init__", br.where(inits[0] if inits else bini),
+               "the route table starts as an empty dict (buckets are created per application by route())",
+               f"the route table is initialised with `{ast.unparse(inits[0].value)[:70] if inits else None}`: pre-built buckets (e.g. "
+               f"dict.fromkeys(apps, {{}})) are one shared object, so a handler registered for one application is reachable through - and "
+               f"overwritten by - every other application", key="routes_init")
+    shared = [x for fi_ in repo.funcs.values() if fi_.mod.name == "bromelia.bromelia" for x in walk_no_nested(fi_.node)
+              if isinstance(x, ast.Call) and call_name(x) == "dict.fromkeys" and len(x.args) == 2
+              and isinstance(x.args[1], (ast.Dict, ast.List, ast.Set, ast.Call))]
+    ctx.decide(not shared, "R-ALIAS/route-buckets", "bromelia.bromelia", "bromelia/bromelia.py",
+               "no table is built with dict.fromkeys(keys, <mutable>)",
+               f"`{ast.unparse(shared[0])[:70] if shared else ''}` gives every key the same mutable value", key="fromkeys", nontrivial=False)
     gc = ctx.need(br.methods.get("get_request_callback"), "Bromelia.get_request_callback")
     p = [a.arg for a in gc.args.args if a.arg != "self"][0]
     P = sym.S(p)
@@ -210,6 +225,25 @@ def check(ctx):
     ctx.decide(ok, "R-MUSTPASS/single-put", f"{wk.qual}.set_outgoing_message", wk.where(so),
                "the message is put on the send queue exactly once", "set_outgoing_message does not put the message exactly once",
                key="put")
+    # hand-over lock: set_outgoing_message takes send_lock and keeps it; the connection worker releases it after the message
+    # has been passed to the association (Worker.send_message / send_messages).  This is what keeps the send queue at one entry:
+    # the batch branch of send_handler relies on get_outgoing_messages(), which returns nothing usable.
+    def lock_calls(fn_, what):
+        return [c for c in fn_calls(fn_) if call_name(c) == f"self.send_lock.{what}"]
+    withs = [w_ for w_ in walk_no_nested(so) if isinstance(w_, ast.With) and any("send_lock" in ast.unparse(i.context_expr) for i in w_.items)]
+    okh = len(lock_calls(so, "acquire")) == 1 and not lock_calls(so, "release") and not withs
+    for nm in ("send_message", "send_messages"):
+        f_ = ctx.need(wk.methods.get(nm), f"Worker.{nm}")
+        names_ = [call_name(c) for c in fn_calls(f_)]
+        rel = [i for i, x in enumerate(names_) if x == "self.send_lock.release"]
+        snd = [i for i, x in enumerate(names_) if x in ("self.app.send_message", "self.app.send_messages")]
+        okh = okh and len(rel) == 1 and len(snd) == 1 and snd[0] < rel[0]
+    ctx.decide(okh, "R-PAIR/send-lock-handoff", f"{wk.qual}.set_outgoing_message", wk.where(so),
+               "send_lock is taken at hand-over and released by the connection worker after the message was passed on",
+               "the hand-over lock is no longer held from set_outgoing_message until the connection worker has passed the message on "
+               "(released early, or not released by send_message/send_messages): two answers can sit in the send queue at once, "
+               "send_handler then takes its batch branch whose get_outgoing_messages() yields nothing, the send thread dies and the "
+               "requests get no answer", key="handoff_lock")
     sm = ctx.need(br.methods.get("send_message"), "Bromelia.send_message")
     outs = [c for c in fn_calls(sm) if call_name(c).endswith(".set_outgoing_message")]
     ctx.decide(len(outs) == 1, "R-MUSTPASS/single-put", f"{br.qual}.send_message", br.where(sm),
